@@ -36,6 +36,10 @@ int main(int argc, char **argv) {
         /* the poles: the cells containing them and their 3-disks (coordinates lose resolution there) */
         for (int sgn = -1; sgn <= 1; sgn += 2) { LatLng pl = {sgn * M_PI_2, 0}; H3Index ph; if (!latLngToCell(&pl, res, &ph)) { H3Index d[37] = {0}; if (!gridDisk(ph, 3, d)) for (int q = 0; q < 37; q++) if (d[q]) cv_push(&cv, d[q]); } }
         qsort(cv.v, cv.n, 8, cmp_u64);
+        /* every index the library accepts as a cell must round-trip: digit-tampered variants of sampled cells (each digit position
+           set to each value 0..7) that isValidCell accepts are cells like the others */
+        for (int t = 0; t < (quick ? 40 : 400) && cv.n > 0; t++) { H3Index h = cv.v[vt_randn(cv.n)];
+            for (int pos = 1; pos <= 15; pos++) for (uint64_t dv = 0; dv < 8; dv++) { H3Index w = (h & ~((uint64_t)7 << (3 * (15 - pos)))) | (dv << (3 * (15 - pos))); if (w != h && isValidCell(w)) ev_rt(w); } }
         for (int64_t i = 0; i < cv.n; i++) if (i == 0 || cv.v[i] != cv.v[i - 1]) {
             ev_rt(cv.v[i]);
             if (i % 7 == 0) { H3Index d[7] = {0}; gridDisk(cv.v[i], 1, d); for (int q = 0; q < 7; q++) if (d[q]) ev_rt(d[q]); }   /* neighbours across the seam */
